@@ -212,6 +212,27 @@ def r3_errors(ctx, fn):
     tr = [x for x in pr.body if isinstance(x, ast.Try)]
     ok = ok and len(tr) == 1 and any(unparse(h.type) == "Exception" for h in tr[0].handlers if h.type is not None) and bool(tr[0].orelse)
     ctx.ob("C08.R3", LNS, "ProcessLine.run", sends[0] if sends else pr, "the worker always sends (exception, traceback, poisoned) back, whatever happened", ok, stmt="send result")
+    # the queue sink's tolerant handler (closed/broken queue) must not swallow errors of the lazily evaluated upstream filter:
+    # iterating `item` runs the user's filter, so that iteration must not sit inside the try whose handler just passes
+    qw = ctx.fn(SNK, "QueueSink.write")
+    g = CFG(qw)
+    n_it = 0
+    for nd in g.nodes:
+        if nd.kind != "iter":
+            continue
+        names = {x.id for x in ast.walk(nd.ast.iter) if isinstance(x, ast.Name)}
+        if not (names & ({a.arg for a in qw.args.args} | {"item", "items"})):
+            continue
+        n_it += 1
+        swallowed = []
+        for b, l in g.succ[nd.id]:
+            if l == "exc" and g.nodes[b].kind == "handler":
+                h = g.nodes[b].ast
+                if not any(isinstance(x, ast.Raise) for st in h.body for x in walk_shallow(st)):
+                    swallowed.append(unparse(h.type) if h.type is not None else "bare except")
+        ctx.ob("C08.R3", SNK, "QueueSink.write", nd.ast, "an exception raised while pulling items from the upstream filter is not swallowed by the sink's queue-error handler",
+               not swallowed, detail=None if not swallowed else {"swallowed_by": swallowed, "note": "iterating the written items evaluates the user's filter lazily"})
+    ctx.floor("C08.R3", "iterations over written items in QueueSink.write", n_it, 1)
 
 
 def r4_cleanup(ctx, fn):
